@@ -7,13 +7,33 @@
 #define VC_PTR_SAME(p, q)    __CPROVER_pointer_equals(p, q)
 #define VC_CARRY(r, n)       (((vc_wide)(r)) << (RLC_DIG * (n)))
 
+
+/* alias shapes of raw digit-vector arguments (same scheme as bn_api.h): an enforcing unit selects one with
+   -DVC_LSHAPE_<f>=<shape>; call-site replacement checks the general disjunction */
+#define VC_L_GEN  0
+#define VC_L_NONE 1
+#define VC_L_CA   2
+#define VC_L_CB   3
+#define VC_L_AB   4
+#define VC_L_CAB  5
+#define VC_LREQ_B(s, a, b, n)    ((s) == VC_L_NONE || (s) == VC_L_CA || (s) == VC_L_CB ? VC_DIGS_FRESH(b, n) : \
+                                  (s) == VC_L_AB || (s) == VC_L_CAB ? VC_PTR_SAME(b, a) : (VC_PTR_SAME(b, a) || VC_DIGS_FRESH(b, n)))
+#define VC_LREQ_C3(s, c, a, b, n) ((s) == VC_L_NONE || (s) == VC_L_AB ? VC_DIGS_FRESH(c, n) : \
+                                  (s) == VC_L_CA || (s) == VC_L_CAB ? VC_PTR_SAME(c, a) : \
+                                  (s) == VC_L_CB ? VC_PTR_SAME(c, b) : (VC_PTR_SAME(c, a) || VC_PTR_SAME(c, b) || VC_DIGS_FRESH(c, n)))
+#define VC_LREQ_C2(s, c, a, n)   ((s) == VC_L_NONE ? VC_DIGS_FRESH(c, n) : (s) == VC_L_CA ? VC_PTR_SAME(c, a) : \
+                                  (VC_PTR_SAME(c, a) || VC_DIGS_FRESH(c, n)))
+#ifndef VC_LSHAPE
+#define VC_LSHAPE VC_L_GEN
+#endif
+
 #include "vc_spec_push.h"
 
 dig_t bn_addn_low(dig_t *c, const dig_t *a, const dig_t *b, size_t size)
 __CPROVER_requires(size <= RLC_BN_SIZE)
 __CPROVER_requires(VC_DIGS_FRESH(a, size))
-__CPROVER_requires(VC_PTR_SAME(b, a) || VC_DIGS_FRESH(b, size))
-__CPROVER_requires(VC_PTR_SAME(c, a) || VC_PTR_SAME(c, b) || VC_DIGS_FRESH(c, size))
+__CPROVER_requires(VC_LREQ_B(VC_LSHAPE, a, b, size))
+__CPROVER_requires(VC_LREQ_C3(VC_LSHAPE, c, a, b, size))
 __CPROVER_assigns(__CPROVER_object_upto(c, size * sizeof(dig_t)))
 __CPROVER_ensures(__CPROVER_return_value <= 1)
 __CPROVER_ensures(vc_val(c, size) + VC_CARRY(__CPROVER_return_value, size) == VC_VAL_OLD(a, size) + VC_VAL_OLD(b, size))
@@ -22,7 +42,7 @@ __CPROVER_ensures(vc_val(c, size) + VC_CARRY(__CPROVER_return_value, size) == VC
 dig_t bn_add1_low(dig_t *c, const dig_t *a, dig_t digit, size_t size)
 __CPROVER_requires(size <= RLC_BN_SIZE)
 __CPROVER_requires(VC_DIGS_FRESH(a, size))
-__CPROVER_requires(VC_PTR_SAME(c, a) || VC_DIGS_FRESH(c, size))
+__CPROVER_requires(VC_LREQ_C2(VC_LSHAPE, c, a, size))
 __CPROVER_assigns(__CPROVER_object_upto(c, size * sizeof(dig_t)))
 __CPROVER_ensures(size > 0 ==> __CPROVER_return_value <= 1)
 __CPROVER_ensures(size == 0 ==> __CPROVER_return_value == digit)
@@ -32,8 +52,8 @@ __CPROVER_ensures(vc_val(c, size) + VC_CARRY(__CPROVER_return_value, size) == VC
 dig_t bn_subn_low(dig_t *c, const dig_t *a, const dig_t *b, size_t size)
 __CPROVER_requires(size <= RLC_BN_SIZE)
 __CPROVER_requires(VC_DIGS_FRESH(a, size))
-__CPROVER_requires(VC_PTR_SAME(b, a) || VC_DIGS_FRESH(b, size))
-__CPROVER_requires(VC_PTR_SAME(c, a) || VC_PTR_SAME(c, b) || VC_DIGS_FRESH(c, size))
+__CPROVER_requires(VC_LREQ_B(VC_LSHAPE, a, b, size))
+__CPROVER_requires(VC_LREQ_C3(VC_LSHAPE, c, a, b, size))
 __CPROVER_assigns(__CPROVER_object_upto(c, size * sizeof(dig_t)))
 __CPROVER_ensures(__CPROVER_return_value <= 1)
 __CPROVER_ensures(vc_val(c, size) + VC_VAL_OLD(b, size) == VC_VAL_OLD(a, size) + VC_CARRY(__CPROVER_return_value, size))
@@ -42,7 +62,7 @@ __CPROVER_ensures(vc_val(c, size) + VC_VAL_OLD(b, size) == VC_VAL_OLD(a, size) +
 dig_t bn_sub1_low(dig_t *c, const dig_t *a, dig_t digit, size_t size)
 __CPROVER_requires(size <= RLC_BN_SIZE)
 __CPROVER_requires(VC_DIGS_FRESH(a, size))
-__CPROVER_requires(VC_PTR_SAME(c, a) || VC_DIGS_FRESH(c, size))
+__CPROVER_requires(VC_LREQ_C2(VC_LSHAPE, c, a, size))
 __CPROVER_assigns(__CPROVER_object_upto(c, size * sizeof(dig_t)))
 __CPROVER_ensures(size > 0 ==> __CPROVER_return_value <= 1)
 __CPROVER_ensures(size == 0 ==> __CPROVER_return_value == digit)
@@ -52,7 +72,7 @@ __CPROVER_ensures(vc_val(c, size) + (vc_wide)digit == VC_VAL_OLD(a, size) + VC_C
 int dv_cmp(const dig_t *a, const dig_t *b, size_t size)
 __CPROVER_requires(size <= RLC_BN_SIZE)
 __CPROVER_requires(VC_DIGS_FRESH(a, size))
-__CPROVER_requires(VC_PTR_SAME(b, a) || VC_DIGS_FRESH(b, size))
+__CPROVER_requires(VC_LREQ_B(VC_LSHAPE, a, b, size))
 __CPROVER_assigns()
 __CPROVER_ensures(__CPROVER_return_value == (vc_val(a, size) < vc_val(b, size) ? RLC_LT : vc_val(a, size) > vc_val(b, size) ? RLC_GT : RLC_EQ))
 ;
@@ -60,9 +80,103 @@ __CPROVER_ensures(__CPROVER_return_value == (vc_val(a, size) < vc_val(b, size) ?
 void dv_copy(dig_t *c, const dig_t *a, size_t digits)
 __CPROVER_requires(digits <= VC_W)
 __CPROVER_requires(VC_DIGS_FRESH(a, digits))
-__CPROVER_requires(VC_DIGS_FRESH(c, digits))
+__CPROVER_requires(VC_LREQ_C2(VC_LSHAPE, c, a, digits))
 __CPROVER_assigns(__CPROVER_object_upto(c, digits * sizeof(dig_t)))
-__CPROVER_ensures(vc_val(c, digits) == vc_val(a, digits))
+__CPROVER_ensures(vc_val(c, digits) == VC_VAL_OLD(a, digits))
+;
+
+/* ---- shifts ------------------------------------------------------------------------------------------------------ */
+dig_t bn_lsh1_low(dig_t *c, const dig_t *a, size_t size)
+__CPROVER_requires(size <= RLC_BN_SIZE)
+__CPROVER_requires(VC_DIGS_FRESH(a, size))
+__CPROVER_requires(VC_LREQ_C2(VC_LSHAPE, c, a, size))
+__CPROVER_assigns(__CPROVER_object_upto(c, size * sizeof(dig_t)))
+__CPROVER_ensures(__CPROVER_return_value <= 1)
+__CPROVER_ensures(vc_val(c, size) + VC_CARRY(__CPROVER_return_value, size) == (VC_VAL_OLD(a, size) << 1))
+;
+
+dig_t bn_lshb_low(dig_t *c, const dig_t *a, size_t size, uint_t bits)
+__CPROVER_requires(size <= RLC_BN_SIZE && bits > 0 && bits < RLC_DIG)
+__CPROVER_requires(VC_DIGS_FRESH(a, size))
+__CPROVER_requires(VC_LREQ_C2(VC_LSHAPE, c, a, size))
+__CPROVER_assigns(__CPROVER_object_upto(c, size * sizeof(dig_t)))
+__CPROVER_ensures(size > 0 ==> ((vc_dbl)__CPROVER_return_value >> bits) == 0)
+__CPROVER_ensures(vc_val(c, size) + VC_CARRY(__CPROVER_return_value, size) == (VC_VAL_OLD(a, size) << bits))
+;
+
+dig_t bn_rsh1_low(dig_t *c, const dig_t *a, size_t size)
+__CPROVER_requires(size <= RLC_BN_SIZE)
+__CPROVER_requires(VC_DIGS_FRESH(a, size))
+__CPROVER_requires(VC_LREQ_C2(VC_LSHAPE, c, a, size))
+__CPROVER_assigns(__CPROVER_object_upto(c, size * sizeof(dig_t)))
+__CPROVER_ensures(__CPROVER_return_value == (dig_t)(VC_VAL_OLD(a, size) & 1))
+__CPROVER_ensures(vc_val(c, size) == (VC_VAL_OLD(a, size) >> 1))
+;
+
+dig_t bn_rshb_low(dig_t *c, const dig_t *a, size_t size, uint_t bits)
+__CPROVER_requires(size <= RLC_BN_SIZE && bits > 0 && bits < RLC_DIG)
+__CPROVER_requires(VC_DIGS_FRESH(a, size))
+__CPROVER_requires(VC_LREQ_C2(VC_LSHAPE, c, a, size))
+__CPROVER_assigns(__CPROVER_object_upto(c, size * sizeof(dig_t)))
+__CPROVER_ensures((vc_wide)__CPROVER_return_value == (VC_VAL_OLD(a, size) & ((((vc_wide)1) << bits) - 1)))
+__CPROVER_ensures(vc_val(c, size) == (VC_VAL_OLD(a, size) >> bits))
+;
+
+/* c[digits .. size) = a[0 .. size-digits), c[0 .. digits) = 0   (size counts the digits of the RESULT) */
+void dv_lshd(dig_t *c, const dig_t *a, size_t size, uint_t digits)
+__CPROVER_requires(size <= RLC_BN_SIZE && digits <= size)
+__CPROVER_requires(VC_DIGS_FRESH(c, size))
+__CPROVER_requires(VC_LSHAPE == VC_L_NONE ? VC_DIGS_FRESH(a, size - digits) : VC_LSHAPE == VC_L_CA ? VC_PTR_SAME(a, c) : \
+	(VC_PTR_SAME(a, c) || VC_DIGS_FRESH(a, size - digits)))
+__CPROVER_assigns(__CPROVER_object_upto(c, size * sizeof(dig_t)))
+__CPROVER_ensures(vc_val(c, size) == (VC_VAL_OLD(a, size - digits) << (RLC_DIG * digits)))
+;
+
+/* c[0 .. size-digits) = a[digits .. size), c[size-digits .. size) = 0 */
+void dv_rshd(dig_t *c, const dig_t *a, size_t size, uint_t digits)
+__CPROVER_requires(size <= RLC_BN_SIZE && digits <= size)
+__CPROVER_requires(VC_DIGS_FRESH(a, size))
+__CPROVER_requires(VC_LREQ_C2(VC_LSHAPE, c, a, size))
+__CPROVER_assigns(__CPROVER_object_upto(c, size * sizeof(dig_t)))
+__CPROVER_ensures(vc_val(c, size) == (VC_VAL_OLD(a, size) >> (RLC_DIG * digits)))
+;
+
+void dv_zero(dig_t *a, size_t digits)
+__CPROVER_requires(digits <= RLC_DV_DIGS)       /* the precision-error exit for larger requests is exercised by a C08 unit */
+__CPROVER_requires(VC_DIGS_FRESH(a, digits))
+__CPROVER_assigns(__CPROVER_object_upto(a, digits * sizeof(dig_t)))
+__CPROVER_ensures(digits <= VC_W ==> vc_val(a, digits) == 0)
+__CPROVER_ensures(gk < digits ==> a[gk] == 0)
+;
+
+/* ---- digit multiply / divide --------------------------------------------------------------------------------------- */
+#ifndef VC_MUL_MAXN
+#define VC_MUL_MAXN RLC_BN_SIZE
+#endif
+dig_t bn_mul1_low(dig_t *c, const dig_t *a, dig_t digit, size_t size)
+__CPROVER_requires(size <= VC_MUL_MAXN)
+__CPROVER_requires(VC_DIGS_FRESH(a, size))
+__CPROVER_requires(VC_LREQ_C2(VC_LSHAPE, c, a, size))
+__CPROVER_assigns(__CPROVER_object_upto(c, size * sizeof(dig_t)))
+__CPROVER_ensures(vc_val(c, size) + VC_CARRY(__CPROVER_return_value, size) == vc_mul_dig(VC_VAL_OLD(a, size), digit))
+;
+
+dig_t bn_mula_low(dig_t *c, const dig_t *a, dig_t digit, size_t size)
+__CPROVER_requires(size <= RLC_BN_SIZE)
+__CPROVER_requires(VC_DIGS_FRESH(a, size))
+__CPROVER_requires(VC_DIGS_FRESH(c, size))
+__CPROVER_assigns(__CPROVER_object_upto(c, size * sizeof(dig_t)))
+__CPROVER_ensures(vc_val(c, size) + VC_CARRY(__CPROVER_return_value, size) == VC_VAL_OLD(c, size) + vc_mul_dig(VC_VAL_OLD(a, size), digit))
+;
+
+void bn_div1_low(dig_t *c, dig_t *d, const dig_t *a, dig_t b, size_t size)
+__CPROVER_requires(size <= RLC_BN_SIZE && b != 0)
+__CPROVER_requires(VC_DIGS_FRESH(a, size))
+__CPROVER_requires(VC_LREQ_C2(VC_LSHAPE, c, a, size))
+__CPROVER_requires(__CPROVER_is_fresh(d, sizeof(dig_t)))
+__CPROVER_assigns(__CPROVER_object_upto(c, size * sizeof(dig_t)), *d)
+__CPROVER_ensures(*d < b)
+__CPROVER_ensures(vc_mul_dig(vc_val(c, size), b) + (vc_wide)*d == VC_VAL_OLD(a, size))
 ;
 
 #include "vc_spec_pop.h"
